@@ -56,14 +56,7 @@ pub fn check_decode(shape: &Shape, input: &[u8], canonical: bool, l: &mut Local)
                     cj(),
                 ));
             }
-            // borrowed data sits exactly where it was encoded
-            if log.borrows.len() == d.payload_spans.len() {
-                for ((p, n), (off, m)) in log.borrows.iter().zip(&d.payload_spans) {
-                    if *n != *m || *p != input.as_ptr() as usize + off {
-                        return Err(fail("decode", "borrowed str/bytes is not at its encoded position", cj()));
-                    }
-                }
-            }
+            // (where borrowed data points is C04's statement, not this one's)
             if d.noncanonical {
                 l.class("accepted-noncanonical-varint");
             }
